@@ -259,3 +259,23 @@ Definition req_wf (r : hreq) : bool :=
   && small (req_arg_string r) && forallb pair_small (req_entries r) && tail_ok (tail_of r).
 
 Definition pieces_nul_free (ps : list bytes) : bool := forallb (forallb (fun c => negb (c =? 0))) ps.
+
+(* ---------- component 2: which files of <sysroot>/lib stand for "the compiler itself" (Rust::new) ---------- *)
+
+Inductive fkind : Type :=
+| KFile            (* a regular file *)
+| KDir
+| KSymFile         (* a symbolic link that resolves to a regular file *)
+| KSymDir
+| KSymDangling
+| KOther.
+
+(* `(t.is_file() || t.is_symlink() && p.is_file()) && p.extension() == DLL_EXTENSION`: DirEntry::file_type does not
+   follow links, Path::is_file does *)
+Definition resolves_to_file (k : fkind) : bool := match k with KFile | KSymFile => true | _ => false end.
+
+Definition is_shlib (e : bytes * fkind) : bool := resolves_to_file (snd e) && extension_is (bs "so") (fst e).
+
+(* the files whose digests are `compiler_shlibs_digests`, in the order they are hashed (libs.sort()) *)
+Definition sysroot_libs (libdir : bytes) (entries : list (bytes * fkind)) : list bytes :=
+  sort_paths (map (fun e => path_join libdir (fst e)) (filter is_shlib entries)).
